@@ -1,1 +1,107 @@
-pub fn main(_args: &[String]) -> i32 { 2 }
+//! C17: every member of the structured input families printed by spec/hash/Padding.tla is hashed with
+//! the REAL hasher; the specification says the digests of one (hasher, entry point) family are
+//! pairwise different.  This engine only calls the entry points and reports equal digests (and
+//! panics); the expected verdict comes from the specification.
+use std::collections::HashMap;
+
+use serde_json::{json, Value};
+use wfcommon::util::{bytes_of, catch, read_ndjson, Out};
+use winter_crypto::{
+    hashers::{Blake3_192, Blake3_256, Sha3_256},
+    Digest, ElementHasher, Hasher,
+};
+use winter_math::fields::f64::BaseElement as F64;
+use winter_utils::Deserializable;
+
+use crate::hashers::{u64_of, Jive, Rp62, Rp64};
+use crate::modes::call_real;
+
+fn byte_digest<H: Hasher>(v: &Value) -> Result<H::Digest, String> {
+    H::Digest::read_from_bytes(&bytes_of(v)).map_err(|e| format!("cannot build digest argument: {e}"))
+}
+
+fn call_bytes<H: ElementHasher<BaseField = F64>>(c: &Value) -> Result<Vec<u8>, String> {
+    let op = c["op"].as_str().unwrap_or("");
+    let ds: Vec<H::Digest> = match c["ds"].as_array() {
+        Some(a) => a.iter().map(|d| byte_digest::<H>(d)).collect::<Result<_, _>>()?,
+        None => vec![],
+    };
+    let d = match op {
+        "hash" => H::hash(&bytes_of(&c["bytes"])),
+        "hash_elements" => {
+            let es: Vec<F64> = c["elems"].as_array().ok_or("no elems")?.iter().map(|v| F64::new(u64_of(v))).collect();
+            H::hash_elements(&es)
+        },
+        "merge" => {
+            if ds.len() != 2 {
+                return Err("merge needs two digests".into());
+            }
+            H::merge(&[ds[0], ds[1]])
+        },
+        "merge_many" => H::merge_many(&ds),
+        "merge_with_int" => {
+            let b = bytes_of(&c["int"]);
+            if ds.len() != 1 || b.len() != 8 {
+                return Err("merge_with_int needs one digest and 8 bytes".into());
+            }
+            H::merge_with_int(ds[0], u64::from_le_bytes(b.try_into().unwrap()))
+        },
+        _ => return Err(format!("unknown op {op}")),
+    };
+    Ok(d.as_bytes().to_vec())
+}
+
+fn rescue_bytes(v: Result<Vec<u64>, String>) -> Result<Vec<u8>, String> {
+    v.map(|w| w.iter().flat_map(|x| x.to_le_bytes()).collect())
+}
+
+fn digest_of_case(c: &Value) -> Result<Result<Vec<u8>, String>, String> {
+    // outer Err: malformed case (tool error); inner Err: the real code panicked (data)
+    let h = c["h"].as_str().unwrap_or("").to_string();
+    let r = catch(|| match h.as_str() {
+        "rp64" => rescue_bytes(call_real::<Rp64>(c, 0)),
+        "jive" => rescue_bytes(call_real::<Jive>(c, 0)),
+        "rp62" => rescue_bytes(call_real::<Rp62>(c, 0)),
+        "b256" => call_bytes::<Blake3_256<F64>>(c),
+        "b192" => call_bytes::<Blake3_192<F64>>(c),
+        "sha3" => call_bytes::<Sha3_256<F64>>(c),
+        _ => Err(format!("unknown hasher {h}")),
+    });
+    match r {
+        Ok(Ok(d)) => Ok(Ok(d)),
+        Ok(Err(e)) => Err(e),
+        Err(p) => Ok(Err(p)),
+    }
+}
+
+pub fn main(args: &[String]) -> i32 {
+    let cases = read_ndjson(&args[0]);
+    let mut out = Out::new();
+    let mut seen: HashMap<(String, String, Vec<u8>), usize> = HashMap::new();
+    let (mut equal, mut panics, mut hashed) = (0usize, 0usize, 0usize);
+    for (i, c) in cases.iter().enumerate() {
+        let key = (c["h"].as_str().unwrap_or("").to_string(), c["op"].as_str().unwrap_or("").to_string());
+        match digest_of_case(c) {
+            Err(e) => out.emit(&json!({"i": i, "tool_error": e})),
+            Ok(Err(p)) => {
+                panics += 1;
+                out.emit(&json!({"i": i, "kind": "panic", "panic": p}));
+            },
+            Ok(Ok(d)) => {
+                hashed += 1;
+                match seen.get(&(key.0.clone(), key.1.clone(), d.clone())) {
+                    Some(&j) => {
+                        equal += 1;
+                        out.emit(&json!({"i": i, "j": j, "kind": "equal", "digest": d}));
+                    },
+                    None => {
+                        seen.insert((key.0, key.1, d), i);
+                    },
+                }
+            },
+        }
+    }
+    out.emit(&json!({"summary": true, "cases": cases.len(), "hashed": hashed, "equal": equal, "panics": panics}));
+    out.flush();
+    0
+}
